@@ -21,21 +21,21 @@ LEVEL = {
     "C08": ("seeded search over postponement schedules imposed by a scripted scope provider on generated multi-file "
             "worlds; oracle = identity of every list slot against the generator's name table. Sampling, not proof: "
             "the schedule space (which reference answers Postponed in which round) is what unit tests cannot cover.",
-            "grammar template family of tvsim/gen.py only (item grammar + class/method template R2); lists may repeat a target; plain and user-class objects; schedules from the scheduler's own bookkeeping, from asking textX (needs_to_be_resolved), from a provider inside ImportURI, and natural RREL postponement; CPython, Arpeggio trusted"),
+            "grammar template family of tvsim/gen.py only (item grammar + class/method template R2); lists may repeat a target, be continued at a second place of the rule, and an object may own two of them; the match rule may be called `sep`; plain, falsy and value-equal user-class objects; schedules from the scheduler's own bookkeeping, from asking textX (needs_to_be_resolved), from a provider inside ImportURI, and natural RREL postponement; CPython, Arpeggio trusted"),
     "C09": ("seeded search over dependency structures (DAGs, cycles, self-dependency, never, dense round maps) across "
             "1-3 files; bounded liveness = provider-call budget N+2 per reference; verdict against the least fixpoint; "
             "result against the name table and the eager schedule; failure report by multiset of names.",
-            "time-based (round) plans only as dense maps; dependency plans also decided by asking textX (attribute-level fixpoint as the reference); shadowed names with a provider inside ImportURI; line/col of the report entries are C28's clause"),
+            "time-based (round) plans only as dense maps; dependency plans also decided by asking textX (attribute-level fixpoint as the reference); shadowed names with a provider inside ImportURI; a builtins dictionary whose keys the models define themselves; line/col of the report entries are C28's clause"),
     "C34": ("W1 worlds with textx_tools_support=True under postponement schedules: bijection, sortedness, exact "
             "reference span, definition file/span from the generator's offsets; position map keys, innermost value, "
             "containment order.",
             "object spans themselves are taken from the model (C06 not claimed); builtins dictionaries excluded, builtin models parsed from strings included; two registered languages with independent tool-support flags (each model judged by its own flag)"),
     "C13": ("ordering / exactly-once checks over the recorded callback history of one load (provider answers, "
             "constructor calls, processor calls) under multi-round schedules, several files and user classes.",
-            "template family only (also spread over three grammar files with a transitive import); abstract alternatives are common rules; value-equal user classes, partial replacement, falsy replacement values"),
+            "template family only (also spread over three grammar files with a transitive import); abstract alternatives are common rules; value-equal and falsy user classes, partial replacement, falsy replacement values; two registered languages with processors of their own; the same classes used by an earlier / a later metamodel"),
     "C14": ("user-class variants x schedules x faults x re-entrant loads; constructor history and class __dict__ "
             "snapshots compared at quiescence.",
-            "inert bookkeeping attributes are reported, not gated; user classes for every common rule incl. scalar containment; immutable root values (int, Decimal, tuple, frozenset)"),
+            "inert bookkeeping attributes are reported, not gated; user classes for every common rule incl. scalar containment; immutable root values (int, Decimal, tuple, frozenset); callbacks aborting with KeyboardInterrupt / an application BaseException"),
     "C15": ("fault enumeration over the crossings of a census run: every callback kind and input corruption as a "
             "failure point; weak references must die, classes must be uninstrumented, the next load must equal a "
             "fresh metamodel's.",
@@ -48,22 +48,22 @@ LEVEL = {
             "debug metamodels are excluded on purpose (debug output is intended history); with a global repository a cached reload must still dump equal to the fresh-process outcome; quick tier: reference outcomes per configuration in one pristine process + a pristine sample, thorough: one pristine process per outcome"),
     "C17": ("histories of loads over generated import graphs on SimFS, every provider family; opens counted at the "
             "seam, identities compared with a ~80 line repository model.",
-            "collisions between two direct imports are not generated (unordered by the statement); file names compared in canonical spelling (symlinked root)"),
+            "collisions between two direct imports are not generated (unordered by the statement); file names compared in canonical spelling (symlinked root); twin files in two search locations; files stored as UTF-8 with BOM / UTF-16 and with CRLF / CR line ends; user classes (plain, falsy, value-equal)"),
     "C18": ("every file of the graph as the failing one x phase x repository mode, then repair and reload; repository "
             "contents compared with the pre-attempt snapshot.",
             "open() errors reported, not gated; processors fail with TextXError, ValueError or an application exception; the second language's own repository and a caller-owned repository are surviving repositories too"),
     "C27": ("parameter forwarding checked on every model created by a load across the four forwarding paths, and "
             "rejection of undeclared keywords before any I/O.",
-            "values are small strings/ints/None; project_root in non-normalised spellings; a parameter declared between loads"),
+            "values are small strings/ints/None; project_root in non-normalised spellings; a parameter declared between loads; a parameter called `source`; a helper object with identity semantics as a value"),
     "C28": ("the injected fault is a corruption at a known offset of a known file; filename/line/col compared with "
             "the harness's own line table.",
             "syntax faults only at token starts; ambiguous across files accepts either consistent location"),
     "C26": ("step-by-step refinement of the registration module against a ~70 line map model over a small universe, "
             "with a scripted entry-point table.",
-            "patterns are strings; one fault kind: factories failing for a with-arguments request"),
+            "patterns are strings; one fault kind: factories failing for a with-arguments request; languages registered without a pattern; the same descriptor object registered again"),
     "C31": ("every write/flush/close of the output file of the built-in generators fails in turn (all k x kinds "
             "enumerated per case); output path must be absent or complete; a rerun without --overwrite must complete it.",
-            "hard kills are not simulated (the statement speaks of a generator that fails); failures are OSError, an application error, KeyboardInterrupt or SystemExit; built-in generators, a user generator writing through gen_file(), and the real `textx generate` command over 1-2 files"),
+            "hard kills are not simulated (the statement speaks of a generator that fails); failures are OSError, an application error, KeyboardInterrupt or SystemExit; built-in generators, a user generator writing through gen_file(), and the real `textx generate` command over 1-2 files; faults that persist; a missing output folder; a generator calling another generator; any stray file in the output directory counts"),
 }
 
 NA = {
